@@ -153,6 +153,8 @@ pub enum Extra {
     OutOfRoleStream,
     /// a record of an earlier stream of the role (own id) while a later one is active
     EarlierStream,
+    /// a skipped record whose content + padding exceeds 65535 bytes
+    BigSkipped,
 }
 
 pub const EXTRAS_PREAMBLE: [Extra; 10] = [
@@ -168,6 +170,9 @@ pub const EXTRAS_PREAMBLE: [Extra; 10] = [
     Extra::GetValuesNonNull,
 ];
 
+/// Extras dominated by skipped records whose content + padding exceeds 65535 bytes.
+pub const EXTRAS_BIG: [Extra; 4] = [Extra::BigSkipped, Extra::BigSkipped, Extra::GetValues, Extra::UnknownType];
+
 /// Preamble extras without any BeginRequest (for workloads that abort requests mid-preamble: a
 /// stray BeginRequest behind the abort would legitimately start a new request).
 pub const EXTRAS_PREAMBLE_NO_BEGIN: [Extra; 8] = [
@@ -182,7 +187,9 @@ pub const EXTRAS_PREAMBLE_NO_BEGIN: [Extra; 8] = [
 ];
 
 /// Reply-eliciting and stray records for the C04 workloads (adds unknown-role BeginRequests).
-pub const EXTRAS_PRE_REPLIES: [Extra; 9] = [
+pub const EXTRAS_PRE_REPLIES: [Extra; 11] = [
+    Extra::GetValuesNonNull,
+    Extra::BigSkipped,
     Extra::GetValues,
     Extra::GetValues,
     Extra::GetValuesEmpty,
@@ -328,8 +335,9 @@ pub fn push_extra(rng: &mut Rng, out: &mut Vec<u8>, kind: Extra, own: u16, role:
             wire::record(out, wire::BEGIN, id, &wire::begin_body(1 + rng.below(3) as u16, rng.u8()), pad);
         }
         Extra::ForeignBeginUnknownRole => {
-            let id = foreign_id(rng, own).max(1);
-            let id = if id == own { own.wrapping_add(1).max(1) } else { id };
+            // (with no request active, id 0 is included: the role is judged before the id)
+            let id = if own == 0 && rng.chance(1, 3) { 0 } else { foreign_id(rng, own).max(1) };
+            let id = if own != 0 && id == own { own.wrapping_add(1).max(1) } else { id };
             wire::record(out, wire::BEGIN, id, &wire::begin_body(*rng.pick(&[0u16, 4, 255, 65535]), rng.u8()), pad);
         }
         Extra::OddKnown => {
@@ -338,6 +346,18 @@ pub fn push_extra(rng: &mut Rng, out: &mut Vec<u8>, kind: Extra, own: u16, role:
             let id = if rng.chance(1, 2) { own } else { rng.u16() };
             let body = rng.rbytes(20);
             wire::record(out, t, id, &body, pad);
+        }
+        Extra::BigSkipped if !rng.chance(1, 3) => {
+            // (kept rare: most draws fall back to a small stray record)
+            let body = rng.rbytes(20);
+            wire::record(out, wire::STDOUT, rng.u16(), &body, pad);
+        }
+        Extra::BigSkipped => {
+            let t = *rng.pick(&[wire::STDOUT, wire::END, 0x77u8, 200, wire::PARAMS]);
+            let id = if t == wire::PARAMS { foreign_id(rng, own).max(1) } else { rng.u16() };
+            let id = if id == own { own.wrapping_add(1).max(1) } else { id };
+            let body = vec![0x5a; 65535 - rng.below(3)];
+            wire::record(out, t, id, &body, *rng.pick(&[1u8, 3, 8, 255]));
         }
         Extra::EarlierStream => {
             let body = rng.rbytes(30);
